@@ -374,3 +374,188 @@ def r15_6(ctx):
         ctx.ob("from_fen:counter-use#%d" % n, plain, b.where(b.term_loc(s)),
                "a branch depends on the move counters through `%s`; apart from 'is it a number' no counter value may decide whether a FEN is accepted" % show_expr(d, b)[:90])
     ctx.ob("from_fen:counter-uses", True, b.file, "%d branches depend on the parsed counters" % n, nontrivial=False)
+
+
+# ---- R15.3 letter tables, R15.4 layout, R15.5 CLI -------------------------------------------------
+from . import chess
+from wa.linear import linear
+from wa.expr import data_slice, root_local
+
+
+def r15_3(ctx):
+    f = ctx.facts
+    fn = "board::BoardState::piece_from_fen_string_char"
+    b = f.body(fn)
+    ctx.note_fn(fn, FROM_FEN)
+    ex = Exprs(b)
+    table = {}
+    for bb in b.normal:
+        t = b.term(bb)
+        if t["k"] == "switch" and t["discr_ty"] == "char":
+            for v, tg in t["cases"]:
+                for i, st in enumerate(b.stmts(tg)):
+                    if st["k"] == "assign":
+                        e = ex.rvalue(st["rv"], (tg, i))
+                        for x in subexprs(e):
+                            if x[0] == "agg" and x[1] == "board::Piece":
+                                fields = f.struct_fields("board::Piece")
+                                vals = dict(zip(fields, x[3]))
+                                table[chr(v)] = (vals["color"][2], vals["kind"][2])
+    want = {}
+    for ch, kind in chess.FEN_LETTERS.items():
+        want[ch] = ("Black", kind)
+        want[ch.upper()] = ("White", kind)
+    ctx.ob("piece_from_fen_string_char:table", table == want, b.file,
+           "FEN letter -> (colour, kind): %s" % ("the 12 standard letters" if table == want else {k: v for k, v in sorted(table.items()) if want.get(k) != v} or "missing %s" % sorted(set(want) - set(table))))
+    b = f.body(FROM_FEN)
+    ex = Exprs(b)
+    # side to move
+    side = {}
+    for loc, st in b.iter_stmts():
+        if st["k"] == "assign" and st["rv"]["k"] == "aggregate" and st["rv"].get("adt") == "board::PieceColor":
+            e = ex.rvalue(st["rv"], loc)
+            for d, vals, excl, s, tg in dominating_facts(b, ex, loc[0]):
+                truth = (vals is None and excl == [0]) or vals == [1]
+                if truth and d[0] == "bin" and d[1] == "Eq":
+                    for x, k in ((strip_refs(d[2]), strip_refs(d[3])), (strip_refs(d[3]), strip_refs(d[2]))):
+                        if k[0] == "str" and len(k[1]) == 1 and any(y[0] == "call" and y[1].endswith("::index") and y[2][1] == ("const", 1) for y in subexprs(x)):
+                            side[k[1]] = e[2]
+    ctx.ob("from_fen:side-letters", side == {"w": "White", "b": "Black"}, b.file, "FEN field 2 letter -> side to move: %s" % sorted(side.items()))
+    # castling letters in the struct literal
+    fields = f.struct_fields("board::BoardState")
+    agg = None
+    for loc, st in b.iter_stmts():
+        if st["k"] == "assign" and st["rv"]["k"] == "aggregate" and st["rv"].get("adt") == "board::BoardState":
+            agg = ex.rvalue(st["rv"], loc)
+    got = {}
+    if agg:
+        for i, fld in enumerate(fields):
+            if fld.endswith("_castle"):
+                e = agg[3][i]
+                chars = [x[2][1][1] for x in subexprs(e) if x[0] == "call" and (x[1].endswith("<impl str>::find") or x[1].endswith("<impl str>::contains")) and x[2][1][0] == "char"]
+                idx = [y[2][1][1] for y in subexprs(e) if y[0] == "call" and y[1].endswith("::index") and y[2][1][0] == "const"]
+                got[fld] = (chars[0] if len(chars) == 1 else None, idx[0] if idx else None)
+    want = {"white_king_side_castle": ("K", 2), "white_queen_side_castle": ("Q", 2), "black_king_side_castle": ("k", 2), "black_queen_side_castle": ("q", 2)}
+    ctx.ob("from_fen:castling-letters", got == want, b.file, "right flag <- (letter searched, FEN field index): %s" % sorted(got.items()))
+    # en passant and the other fields of the literal
+    if agg:
+        epi = fields.index("pawn_double_move")
+        epe = agg[3][epi]
+        sl = data_slice(ex, epe)
+        ok = any(x[0] == "call" and x[1].endswith("<impl str>::parse") for x in sl) and any(
+            y[0] == "call" and y[1].endswith("::index") and y[2][1] == ("const", 3) for x in sl for y in subexprs(x))
+        ctx.ob("from_fen:ep-field", ok, b.file, "pawn_double_move comes from parsing FEN field 4 as a square")
+        for fld, wantv in (("last_move", "None"), ("pawn_promotion", "None")):
+            e = agg[3][fields.index(fld)]
+            ctx.ob("from_fen:%s-empty" % fld, e[0] == "agg" and e[2] == wantv, b.file, "a loaded position carries no move descriptor: %s = %s" % (fld, show_expr(e, b)[:30]))
+    # king cache: written from (row, col) of the square just stored, exactly when kind == King, by colour
+    kw = {}
+    for loc, st in b.iter_stmts():
+        if st["k"] == "assign" and not st["place"]["proj"] and b.lname(st["place"]["local"]).endswith("_king_location"):
+            e = ex.rvalue(st["rv"], loc)
+            if e[0] == "agg" and e[1] == "board::Point" and e[3][0][0] == "const":
+                continue   # initial Point(0, 0)
+            conds = []
+            for d, vals, excl, s, tg in dominating_facts(b, ex, loc[0]):
+                d0 = strip_refs(d)
+                if d0[0] == "bin" and d0[1] == "Eq" and ((vals is None and excl == [0]) or vals == [1]):
+                    for x, k in ((strip_refs(d0[2]), strip_refs(d0[3])), (strip_refs(d0[3]), strip_refs(d0[2]))):
+                        if k[0] == "agg" and k[1] == "board::PieceKind":
+                            conds.append(k[2])
+                if d0[0] == "discr" and vals is not None and len(vals) == 1:
+                    x = strip_refs(d0[1])
+                    if x[0] == "field" and x[2] == "color":
+                        conds.append(f.enum_variant_by_discr("board::PieceColor").get(vals[0]))
+            kw[b.lname(st["place"]["local"])] = (sorted(conds), e)
+    okk = set(kw) == {"white_king_location", "black_king_location"}
+    for name, (conds, e) in kw.items():
+        colour = "White" if name.startswith("white") else "Black"
+        okk = okk and conds == sorted(["King", colour]) and e[0] == "agg" and e[1] == "board::Point"
+    ctx.ob("from_fen:king-cache", okk, b.file, "king squares recorded under (kind == King, colour): %s" % {k: v[0] for k, v in kw.items()})
+
+
+def r15_4(ctx):
+    """Layout: rows from row 2 downward, columns from 2 rightward; a digit skips that many squares;
+    each FEN row must end exactly at column 10; the piece is stored where the cursor is."""
+    f = ctx.facts
+    b = f.body(FROM_FEN)
+    ex = Exprs(b, keep={l for l in f.body(FROM_FEN).names if f.body(FROM_FEN).local_ty(l) == "usize"})
+    cur = [l for l, n in b.names.items() if b.local_ty(l) == "usize" and n in ("row", "col")]
+    us = {b.lname(l): l for l in b.names if b.local_ty(l) == "usize"}
+    # identify cursors structurally: usize locals used as indices of the board array write
+    rows, cols = set(), set()
+    for loc, st in b.iter_stmts():
+        if st["k"] == "assign":
+            p = st["place"]
+            idx = [e["local"] for e in p["proj"] if e["k"] == "index"]
+            if len(idx) == 2 and b.local_ty(p["local"]).startswith("[[board::Square"):
+                from wa.mir import alias_of
+                rows.add(alias_of(b, idx[0])[0])
+                cols.add(alias_of(b, idx[1])[0])
+    if len(rows) != 1 or len(cols) != 1:
+        raise ShapeNotRecognised("from_fen: board cursor not recognised (rows %s, cols %s)" % (rows, cols))
+    row, col = next(iter(rows)), next(iter(cols))
+    rd = b.reaching()
+
+    def defs_of(l):
+        out = []
+        for loc, k in rd.all_sites(l):
+            if k == "whole":
+                out.append((loc, ex.rvalue(b.stmts(loc[0])[loc[1]]["rv"], loc)))
+        return out
+    rdefs, cdefs = defs_of(row), defs_of(col)
+    rinit = [e for _, e in rdefs if e[0] == "const"]
+    cinit = [e for _, e in cdefs if e[0] == "const"]
+    rinc = [e for _, e in rdefs if e[0] == "bin"]
+    cinc = [e for _, e in cdefs if e[0] == "bin"]
+    ok = {e[1] for e in rinit} == {2} and {e[1] for e in cinit} == {2}
+    ctx.ob("from_fen:cursor-starts-at-a8", ok, b.file, "row starts at %s, column starts/resets at %s (2,2 is a8)" % (sorted(e[1] for e in rinit), sorted(e[1] for e in cinit)))
+    inc1 = lambda es, l: all(e[1] == "Add" and e[3] == ("const", 1) and e[2][0] == "var" and e[2][1] == l for e in es) and bool(es)
+    ctx.ob("from_fen:cursor-steps", inc1(rinc, row) and inc1(cinc, col) and len(rinc) == 1 and len(cinc) == 2, b.file,
+           "row advances by one per FEN row (%d sites), column by one per square or skipped square (%d sites)" % (len(rinc), len(cinc)))
+    # row-complete check: an Err return under Ne(col, 10) after the inner loop
+    complete = False
+    for s in b.normal:
+        if s in b.reachable and b.term(s)["k"] == "switch":
+            d = ex.switch_discr(s)
+            if d[0] == "bin" and d[1] in ("Ne", "Eq") and strip_refs(d[2])[0] == "var" and strip_refs(d[2])[1] == col and d[3] == ("const", 10):
+                complete = True
+    ctx.ob("from_fen:row-must-be-complete", complete, b.file, "after each FEN row the column cursor is compared with 10 (row exactly filled)")
+    # the column reset happens once per row, after the completeness test
+    # digits: the skip count is to_digit of the same char that passed is_digit
+    skips = [x for bb, t in b.iter_calls() if (callee_of(t) or "").endswith("to_digit") for x in [ex.call_args(bb)]]
+    ctx.ob("from_fen:digit-skip", len(skips) == 1 and skips[0][1] == ("const", 10), b.file, "digits are read in base %s" % [show_expr(s[1], b) for s in skips])
+
+
+def r15_5(ctx):
+    """CLI: the result of from_fen is matched; the Err arm prints and returns; nothing unwraps it."""
+    f = ctx.facts
+    b = f.body("main")
+    ctx.note_fn("main")
+    ex = Exprs(b)
+    calls = b.calls_to(FROM_FEN)
+    ctx.ob("main:loads-fen-once", len(calls) == 1, b.file, "%d calls of from_fen in main" % len(calls))
+    for bb, t in calls:
+        res = ex.call_expr(t, b.term_loc(bb))
+        bad = []
+        for cb, ct in b.iter_calls():
+            c = callee_of(ct) or ""
+            if c.endswith("::unwrap") or c.endswith("::expect"):
+                a = ex.call_args(cb)[0]
+                if res in set(subexprs(a)):
+                    bad.append(b.where(b.term_loc(cb)))
+        ctx.ob("main:fen-result-not-unwrapped", not bad, bad[0] if bad else b.where(b.term_loc(bb)), "the CLI must report a bad FEN, not panic on it")
+        # the Err edge leads to return
+        okerr = False
+        for s in b.normal:
+            if s in b.reachable and b.term(s)["k"] == "switch":
+                d = ex.switch_discr(s)
+                if d[0] == "discr" and strip_refs(d[1]) == res:
+                    tt = b.term(s)
+                    errt = [tg for v, tg in tt["cases"] if v == 1] or [tt["otherwise"]]
+                    seen = b.reach_from(errt[0])
+                    ends = [x for x in seen if not b.succ.get(x)]
+                    prints = any(b.term(x)["k"] == "call" and "_print" in (callee_of(b.term(x)) or "") for x in seen)
+                    okerr = all(b.term(x)["k"] == "return" for x in ends) and prints and not any(
+                        callee_of(b.term(x)) in ("uci::play_game_uci", "engine::play_game_against_self") for x in seen if b.term(x)["k"] == "call")
+        ctx.ob("main:err-arm-prints-and-returns", okerr, b.where(b.term_loc(bb)), "on Err the message is printed and main returns normally")
